@@ -1050,7 +1050,7 @@ fn c11_spec(timeout_ms: u64) -> Arc<BenchSpec> {
             .script(13, vec![sendc(0, 1, 5)]) // to the dropped mailbox
             .script(14, vec![sendc(1, 1, 6)]) // to the orphan
             .script(15, vec![query(0, 1)]) // query loopback => deadlock
-            .script(16, vec![Op::Block(400)])
+            .script(16, vec![Op::Block(900)])
             .script(17, vec![sendc(2, 10, 0)]) // make the sub-model panic
             .script(18, vec![sched_self(SKind::Once, When::Rel(1), 10, 0)]) // panic at the next step
     };
@@ -1170,7 +1170,7 @@ pub fn c11(tier: &str) -> Vec<Family> {
     }
     fams.push(Family::new("out_of_sync", TAGS_ERRORS, sc_oos));
     // Timeouts (wall-clock: few scenarios).
-    let tspec = c11_spec(60);
+    let tspec = c11_spec(200);
     let sc_t = c11_scenarios(tier, &tspec, true);
     let n_t = if tier == "quick" { 6 } else { sc_t.len() };
     let sc_t: Vec<Scenario> = sc_t.into_iter().take(n_t).collect();
